@@ -10,20 +10,25 @@ PROPERTY = "C01"
 LEVEL = "exploration"
 RULE = ("seeded random programs of every public mutator (plus ~15% reads) applied at a uniformly "
         "chosen container position (depth 0-5) of generated nested content, for each of the 18 classes "
-        "x write_concern x threading; the resource is probed without the library after every step and "
+        "x write_concern x threading; in the io_fault stratum a third of the mutating calls run with an injected "
+        "OSError(EIO) at their j-th file-system event or EFBIG after a byte prefix: a call that returns must "
+        "still have written, a call that raises must leave the file wholly old or wholly new; the resource is probed without the library after every step and "
         "compared type-strictly with a plain dict/list model. distinct = hash of the case JSON; "
         "non-trivial = at least 3 mutating steps executed.")
 ASSUMPTIONS = [
     "Redis/MongoDB/Zarr are in-process fakes implementing the client calls the library makes; "
     "server-side limits (BSON 64-bit ints, size limits) are not emulated",
 ]
-STRATA = ["clean", "collide"]
-PER = {"quick": {"clean": 250, "collide": 60}, "thorough": {"clean": 1500, "collide": 300}}
+STRATA = ["clean", "collide", "io_fault", "outside_writer"]
+PER = {"quick": {"clean": 250, "collide": 60, "io_fault": 120, "outside_writer": 120},
+       "thorough": {"clean": 1500, "collide": 300, "io_fault": 800, "outside_writer": 800}}
 STEPS = {"quick": 25, "thorough": 40}
 
 
 def plan(tier, seed):
-    return common.plan_grid(tier, seed, common.class_cfgs(), PER, STRATA, pieces=2)
+    specs = common.plan_grid(tier, seed, common.class_cfgs(), PER, STRATA, pieces=2)
+    # fault injection works through the audit hook / RLIMIT_FSIZE: file-backed classes only
+    return [s for s in specs if s["stratum"] != "io_fault" or catalog.info(s["cls"]).backend == "json"]
 
 
 def make_case(spec, i):
@@ -34,7 +39,41 @@ def make_case(spec, i):
     init = MISSING if r.random() < 0.12 else g.shape(info.kind, depth)
     ms = ModelState(info.kind, [init])
     ms.add_root(0, 0)
-    steps = gen.gen_program(g, ms, STEPS[spec["tier"]], p_read=0.15, depth=2)
+    if spec["stratum"] == "outside_writer":
+        # another writer changes the resource between the calls; every mutating call (the load-free root
+        # clear()/reset() included) must still leave exactly its own new content behind
+        from .c02 import rewrite
+
+        steps = []
+        while len(steps) < STEPS[spec["tier"]]:
+            if r.random() < 0.25:
+                new, trans = rewrite(g, ms.logical[0], info.kind)
+                steps.append({"outside": new, "res": 0, "bump": r.random() < 0.5, "trans": trans})
+                ms.outside(0, new)
+            else:
+                flt = ["clear", "reset"] if r.random() < 0.25 else None
+                steps.extend(gen.gen_program(g, ms, 1, p_read=0.1, depth=2, mutator_filter=flt))
+    else:
+        steps = gen.gen_program(g, ms, STEPS[spec["tier"]], p_read=0.15, depth=2)
+    if spec["stratum"] == "io_fault":
+        # a third of the mutating steps run with an injected fault: OSError(EIO) at the j-th file-system
+        # event of the operation (load open, temp-file open, replace, ...) or EFBIG after a byte prefix
+        from vf import model as _m
+
+        # Only idempotent mutators get a fault, and each is re-issued right after without one, so that
+        # the rest of the program meets the state it was generated for whether or not the faulty call
+        # took effect.
+        idem = {"setitem", "update", "setdefault", "reset", "clear"}
+        out = []
+        for st in steps:
+            ok = st["op"] in idem and not (st["op"] == "setitem" and isinstance(st["args"][0], dict))
+            if ok and r.random() < 0.5:
+                f = dict(st)
+                f["fault"] = {"eio": r.choice([1, 2, 2, 3, 3, 4])} if r.random() < 0.8 else \
+                    {"efbig": r.choice([0, 3, 20, 60])}
+                out.append(f)
+            out.append(st)
+        steps = out
     return {"cls": info.name, "cfg": spec["cfg"], "res": [init], "roots": [[0, 0]], "steps": steps,
             "stratum": spec["stratum"], "oracle": {"results": False, "resource_strict": True}}
 
